@@ -217,3 +217,43 @@ Proof.
     + injection H1 as <-. injection H2 as <-. exact Hab.
     + apply (IH r2 H k x y H1 H2).
 Qed.
+
+(* ---- the same-value relation of distinct-values is transitive: its classes partition the values ---- *)
+Lemma num_eq_trans : forall a b c, num_eq a b = true -> num_eq b c = true -> num_eq a c = true.
+Proof.
+  intros [n1 d1| | |] [n2 d2| | |] [n3 d3| | |]; cbn; intros H1 H2; try discriminate; auto.
+  apply Z.eqb_eq in H1. apply Z.eqb_eq in H2. apply Z.eqb_eq. nia.
+Qed.
+Lemma dv_same_num : forall t1 v1 t2 v2, dv_same (ANum t1 v1) (ANum t2 v2) = nval_eq v1 v2.
+Proof. intros t1 [n1 d1| | |] t2 [n2 d2| | |]; cbn; auto. destruct (n1 * Z.pos d2 =? n2 * Z.pos d1); reflexivity. Qed.
+Lemma dv_same_trans : forall a b c, dv_same a b = true -> dv_same b c = true -> dv_same a c = true.
+Proof.
+  intros a b c.
+  destruct a as [t1 v1|u1 s1|s1 o1|b1|f1 x1|f1 x1], b as [t2 v2|u2 s2|s2 o2|b2|f2 x2|f2 x2], c as [t3 v3|u3 s3|s3 o3|b3|f3 x3|f3 x3];
+    try (rewrite !dv_same_num; apply nval_eq_trans);
+    unfold dv_same, av_eq; cbn; intros H1 H2; try rewrite andb_false_r in H1; try rewrite andb_false_r in H2; cbn in H1, H2; try discriminate; auto;
+    try (destruct b1, b2, b3; auto; fail);
+    repeat match goal with
+    | H : context [if ?x =? ?y then _ else _] |- _ => destruct (x =? y) eqn:?; try discriminate
+    | H : (?x =? ?y) = true |- _ => apply Z.eqb_eq in H; subst
+    end; rewrite ?Z.eqb_refl; auto.
+Qed.
+
+(* ---- numeric promotion: the type of a numeric aggregate is the greatest of the operand types ---- *)
+Lemma tpromote_rank : forall a b, trank (tpromote a b) = Z.max (trank a) (trank b).
+Proof. intros a b. unfold tpromote. destruct (trank a <? trank b) eqn:E; [apply Z.ltb_lt in E|apply Z.ltb_ge in E]; lia. Qed.
+Lemma num_type_fold_rank : forall l t, trank t <= trank (fold_left (fun t a => match a with ANum u _ => tpromote t u | _ => t end) l t) /\
+  forall u v, In (ANum u v) l -> trank u <= trank (fold_left (fun t a => match a with ANum u _ => tpromote t u | _ => t end) l t).
+Proof.
+  induction l as [|a r IH]; intros t; cbn [fold_left]; [split; [lia|intros u' v' []]|].
+  destruct a as [u0 v0|a1 a2|a1 a2|a1|a1 a2|a1 a2].
+  - destruct (IH (tpromote t u0)) as (A & B). rewrite tpromote_rank in A. split; [lia|].
+    intros u' v' [E|H]; [injection E as <- <-; lia|apply (B u' v' H)].
+  - destruct (IH t) as (A & B). split; [exact A|]. intros u' v' [E|H]; [discriminate|apply (B u' v' H)].
+  - destruct (IH t) as (A & B). split; [exact A|]. intros u' v' [E|H]; [discriminate|apply (B u' v' H)].
+  - destruct (IH t) as (A & B). split; [exact A|]. intros u' v' [E|H]; [discriminate|apply (B u' v' H)].
+  - destruct (IH t) as (A & B). split; [exact A|]. intros u' v' [E|H]; [discriminate|apply (B u' v' H)].
+  - destruct (IH t) as (A & B). split; [exact A|]. intros u' v' [E|H]; [discriminate|apply (B u' v' H)].
+Qed.
+Lemma num_type_upper : forall l u v, In (ANum u v) l -> trank u <= trank (num_type l).
+Proof. intros l u v H. unfold num_type. apply (proj2 (num_type_fold_rank l TInteger) u v H). Qed.
